@@ -5,7 +5,7 @@ the copy is deleted.  These mutants are only required to compile (the extractor 
 suite notices them is not checked here.  Usage: mutants.py [name...]   (not a property check)"""
 import os, re, shutil, subprocess, sys, json, hashlib, glob
 ROOT = os.path.dirname(os.path.dirname(os.path.abspath(__file__)))
-SCRATCH = "/tmp/ckc-mutants"
+SCRATCH = "/tmp/ckc-mutants-%d" % os.getpid()
 
 
 def sub(path, old, new, count=1):
@@ -212,6 +212,7 @@ def main():
                 shutil.rmtree(d, ignore_errors=True)
     json.dump(results, open(os.path.join(ROOT, "selftest", "mutant_results.json"), "w"), indent=1)
     surv = [k for k, v in results.items() if not v["status"].startswith("killed")]
+    shutil.rmtree(SCRATCH, ignore_errors=True)
     print("mutants: %d, not killed: %s" % (len(results), surv))
 
 
